@@ -58,6 +58,12 @@ class BalancedMoveRule(BaseRule):
             node.parent, EqualExpression
         ):
             return None
+        # A chained equation (a = b = c) has no single pair of sides to balance:
+        # the operation would be applied to an equation instead of a side.
+        if isinstance(root.left, EqualExpression) or isinstance(
+            root.right, EqualExpression
+        ):
+            return None
 
         if isinstance(node.parent, MultiplyExpression) and isinstance(
             node, ConstantExpression
